@@ -99,6 +99,8 @@ pub fn exec(ctx: &mut Ctx, line: &str) -> String {
         crate::ops::random::exec(ctx, op, &mut p)
     } else if op.starts_with("act.") || op.starts_with("obj.") || op.starts_with("opt.") {
         crate::ops::scalar::exec(ctx, op, &mut p)
+    } else if op == "net" {
+        crate::ops::net::exec(ctx, op, &mut p)
     } else if op == "ping" {
         "ok pong".to_string()
     } else if op == "lit" {
